@@ -230,3 +230,26 @@ def kernel_phase(rep, module, namespace, obligations, tag=None):
     if hits:
         rep.coverage['forbidden_tokens'] = hits
     return ok and not bad and not hits, hits
+
+
+def run_driver(driver, stdin_text, timeout=1200):
+    """run a Lean line-protocol driver (lean/drivers/<driver>.lean) on the given input; returns stdout lines"""
+    with Lock():
+        rc, out, dt = run(['lake', 'env', 'lean', '--run', f'drivers/{driver}.lean'], cwd=LEAN, timeout=timeout, input=stdin_text)
+    lines = [l for l in out.split('\n') if l and not l.startswith('drivers/') and 'warning' not in l]
+    if rc != 0:
+        raise RuntimeError(f'driver {driver} failed (rc={rc}): {out[-800:]}')
+    return lines, dt
+
+
+def split_blocks(lines, sep='---'):
+    blocks, cur = [], []
+    for l in lines:
+        if l == sep:
+            blocks.append(cur)
+            cur = []
+        else:
+            cur.append(l)
+    if cur:
+        blocks.append(cur)
+    return blocks
